@@ -49,7 +49,7 @@ def run(ctx):
     for rd in range(2 if quick else 10):
         sess = markers.Session(h)
         keys = markers.Keys(sess.p)
-        regs, steps = c02.build_history(ctx, sess, 120 if quick else 300, 300 if quick else 1200)
+        regs, steps = c02.build_history(ctx, sess, 120 if quick else 300, 300 if quick else 1200, battery=(rd == 0))
         extend_history(ctx, sess, regs, 150 if quick else 600)
         _, more = c02.build_history(ctx, sess, 0, 0)
         # monitor
